@@ -21,7 +21,7 @@ import (
 // Payload format of the harness's depacketizer (the Coq side has the same
 // three functions, Model/SampleBuilder.v fk_*):
 //   payload = [flags, chunk...]   flags bit0 partition head, bit1 partition tail, bit2 Unmarshal fails
-//   chunk   = [len(chunk), g>>8, g&255, copy, extra...]      (Unmarshal returns the chunk)
+//   chunk   = [len(chunk), g&255, g>>8, copy, extra...]      (Unmarshal returns the chunk)
 // g is the packet's index in the ground-truth stream, copy the number of the
 // duplicate, so the oracle can read off a sample's bytes which pushed packets
 // went into it without looking at anything else the builder returns.
@@ -260,7 +260,7 @@ func c31CheckSample(s *media.Sample, k int, pushed map[string]c31Pushed, emitted
 			failNew("sample-not-a-concatenation-of-payloads", fmt.Sprintf("op %d: sample %x does not split into depacketized payloads", k, s.Data))
 			return
 		}
-		key := fmt.Sprintf("%d/%d", int(d[1])<<8|int(d[2]), int(d[3]))
+		key := fmt.Sprintf("%d/%d", int(d[1])|int(d[2])<<8, int(d[3]))
 		p, ok := pushed[key]
 		if !ok || hex.EncodeToString(d[:n]) != p.chunk {
 			failNew("sample-contains-bytes-never-pushed", fmt.Sprintf("op %d: chunk %x is not the payload of a packet pushed so far", k, d[:n]))
@@ -373,6 +373,8 @@ func c31Coq(in c31In) string {
 	}
 	out := []string{CoqZ(int64(in.MaxLate)), CoqZ(int64(in.DelayMs)), CoqZ(int64(in.Rate)),
 		CoqZ(b2z(in.HeadHandler)), CoqZ(b2z(in.RTPHeaders))}
+	var pseq uint16
+	var pts uint32
 	for _, op := range in.Ops {
 		out = append(out, CoqZ(int64(op.K)))
 		if op.K == 0 {
@@ -384,7 +386,10 @@ func c31Coq(in c31In) string {
 			for i := len(payload) - 1; i >= 0; i-- {
 				pv = pv<<8 | int64(payload[i])
 			}
-			out = append(out, CoqZ(int64(op.Seq)), CoqZ(int64(op.TS)), CoqZ(b2z(op.Marker)+2*int64(len(payload))), CoqZ(pv))
+			// seq and timestamp as signed differences from the previous Push (shorter text)
+			out = append(out, CoqZ(int64(int16(op.Seq-pseq))), CoqZ(int64(int32(op.TS-pts))),
+				CoqZ(b2z(op.Marker)+2*int64(len(payload))), CoqZ(pv))
+			pseq, pts = op.Seq, op.TS
 		}
 	}
 	return CoqList(out)
@@ -471,9 +476,16 @@ func c31Payload(sp c31SP, g, cp int) string {
 	if sp.emptyPacket {
 		return ""
 	}
-	chunk := []byte{byte(4 + len(sp.extra)), byte(g >> 8), byte(g), byte(cp)}
+	chunk := []byte{byte(4 + len(sp.extra)), byte(g), byte(g >> 8), byte(cp)}
 	chunk = append(chunk, sp.extra...)
 	return hex.EncodeToString(append([]byte{sp.flags}, chunk...))
+}
+
+func c31ExtraLen(r *Rand) int {
+	if r.Chance(1, 5) {
+		return r.Range(1, 2)
+	}
+	return 0
 }
 
 type c31GenOpt struct {
@@ -523,6 +535,11 @@ func c31Gen(r *Rand, o c31GenOpt) c31In {
 		if r.Chance(1, 3) {
 			n = 1
 		}
+		if f == nf-1 && n == 2 && !r.Chance(1, 4) {
+			// a final two-packet frame makes Flush walk the whole 65536-slot ring (see the
+			// "witness-ring-walk" corpus case): 1 s of model evaluation each, so keep only a quarter
+			n = 3
+		}
 		var fr []int
 		noTail := r.Chance(o.noTailChance, 100)
 		for i := 0; i < n; i++ {
@@ -533,7 +550,7 @@ func c31Gen(r *Rand, o c31GenOpt) c31In {
 			if i == n-1 && !noTail {
 				fl |= 2
 			}
-			sp := c31SP{seq: seq, ts: ts, flags: fl, frame: f, extra: r.Bytes(r.Intn(3))}
+			sp := c31SP{seq: seq, ts: ts, flags: fl, frame: f, extra: r.Bytes(c31ExtraLen(r))}
 			if o.randomFlags {
 				switch {
 				case r.Chance(1, 6):
@@ -644,18 +661,18 @@ func c31Gen(r *Rand, o c31GenOpt) c31In {
 
 var c31Classes = []c31GenOpt{
 	// loss-free, reordered within the bound: the completeness clause applies
-	{class: "complete-inorder", maxLates: []int{50, 16, 100}, nFramesLo: 2, nFrames: 40, wellFormed: true, disp: 0, popMode: 0, complete: true},
-	{class: "complete-reorder", maxLates: []int{50, 16, 24, 100}, nFramesLo: 2, nFrames: 40, wellFormed: true, disp: -1, popMode: 0, complete: true},
-	{class: "complete-reorder-fewpops", maxLates: []int{50, 16, 100}, nFramesLo: 2, nFrames: 40, wellFormed: true, disp: -1, popMode: 2, complete: true},
-	{class: "complete-reorder-popsatend", maxLates: []int{50, 24}, nFramesLo: 2, nFrames: 30, wellFormed: true, disp: -1, popMode: 3, complete: true},
+	{class: "complete-inorder", maxLates: []int{50, 16, 100}, nFramesLo: 2, nFrames: 28, wellFormed: true, disp: 0, popMode: 0, complete: true},
+	{class: "complete-reorder", maxLates: []int{50, 16, 24, 100}, nFramesLo: 2, nFrames: 28, wellFormed: true, disp: -1, popMode: 0, complete: true},
+	{class: "complete-reorder-fewpops", maxLates: []int{50, 16, 100}, nFramesLo: 2, nFrames: 28, wellFormed: true, disp: -1, popMode: 2, complete: true},
+	{class: "complete-reorder-popsatend", maxLates: []int{50, 24}, nFramesLo: 2, nFrames: 24, wellFormed: true, disp: -1, popMode: 3, complete: true},
 	// loss, duplication, bursts, time delay
-	{class: "lossy-dup", maxLates: []int{50, 10, 5, 100}, delayChance: 3, nFramesLo: 3, nFrames: 50, wellFormed: true, lossPct: 6, dupPct: 6, disp: 6, popMode: 0},
-	{class: "lossy-burst-jumps", maxLates: []int{50, 10, 200}, delayChance: 4, nFramesLo: 3, nFrames: 50, wellFormed: true, lossPct: 3, dupPct: 3, burst: true, jumps: true, disp: 4, popMode: 1},
-	{class: "timestamp-delimited", maxLates: []int{50, 10}, delayChance: 2, nFramesLo: 3, nFrames: 40, noTailChance: 60, lossPct: 3, dupPct: 2, disp: 3, popMode: 0},
-	{class: "multi-head-frames", maxLates: []int{50, 10, 3}, delayChance: 2, nFramesLo: 2, nFrames: 30, multiHead: true, lossPct: 3, dupPct: 3, disp: 3, popMode: 1},
-	{class: "mid-stream-flush", maxLates: []int{50, 10}, delayChance: 2, nFramesLo: 3, nFrames: 30, wellFormed: true, lossPct: 2, dupPct: 8, disp: 5, popMode: 1, midFlushPct: 6},
+	{class: "lossy-dup", maxLates: []int{50, 10, 5, 100}, delayChance: 3, nFramesLo: 3, nFrames: 24, wellFormed: true, lossPct: 6, dupPct: 6, disp: 6, popMode: 0},
+	{class: "lossy-burst-jumps", maxLates: []int{50, 10, 200}, delayChance: 4, nFramesLo: 3, nFrames: 24, wellFormed: true, lossPct: 3, dupPct: 3, burst: true, jumps: true, disp: 4, popMode: 1},
+	{class: "timestamp-delimited", maxLates: []int{50, 10}, delayChance: 2, nFramesLo: 3, nFrames: 28, noTailChance: 60, lossPct: 3, dupPct: 2, disp: 3, popMode: 0},
+	{class: "multi-head-frames", maxLates: []int{50, 10, 3}, delayChance: 2, nFramesLo: 2, nFrames: 24, multiHead: true, lossPct: 3, dupPct: 3, disp: 3, popMode: 1},
+	{class: "mid-stream-flush", maxLates: []int{50, 10}, delayChance: 2, nFramesLo: 3, nFrames: 24, wellFormed: true, lossPct: 2, dupPct: 8, disp: 5, popMode: 1, midFlushPct: 6},
 	{class: "tiny-maxlate", maxLates: []int{0, 1, 2}, nFramesLo: 2, nFrames: 12, wellFormed: true, lossPct: 2, dupPct: 5, disp: 2, popMode: 0},
-	{class: "malformed-flags", maxLates: []int{50, 10, 4}, delayChance: 2, nFramesLo: 2, nFrames: 30, randomFlags: true, lossPct: 4, dupPct: 4, disp: 4, popMode: 1, midFlushPct: 1},
+	{class: "malformed-flags", maxLates: []int{50, 10, 4}, delayChance: 2, nFramesLo: 2, nFrames: 24, randomFlags: true, lossPct: 4, dupPct: 4, disp: 4, popMode: 1, midFlushPct: 1},
 }
 
 func c31GenCase(small bool) func(r *Rand, i int) c31In {
@@ -791,7 +808,7 @@ func c31Shrink(in c31In) []c31In {
 				del(func(_ int, op c31Op) bool { return !(op.K == 0 && gone[op.G]) }, fr)
 			}
 		}
-		for i := 0; i < n && len(out) < 300; i++ {
+		for i := 0; i < n && len(out) < 100; i++ {
 			if in.Ops[i].K == 1 {
 				j := i
 				del(func(k int, _ c31Op) bool { return k != j }, in.Frames)
@@ -803,7 +820,7 @@ func c31Shrink(in c31In) []c31In {
 		if w < 1 {
 			continue
 		}
-		for i := 0; i+w <= n && len(out) < 500; i += w {
+		for i := 0; i+w <= n && len(out) < 150; i += w {
 			lo, hi := i, i+w
 			del(func(k int, _ c31Op) bool { return k < lo || k >= hi }, in.Frames)
 		}
@@ -817,14 +834,14 @@ func init() {
 	Register(Spec[c31In]{
 		ID: "C31", Suite: "detail", CoqImports: []string{"Check.C31"},
 		CoqType: "list Z", CoqRun: "Check.C31.run_full",
-		Quick: 60, Thorough: 1500, Parallel: 16, Timeout: 120 * time.Second,
+		Quick: 20, Thorough: 1500, Parallel: 16, Timeout: 120 * time.Second,
 		Corpus: c31Corpus, Gen: c31GenCase(true), Run: c31Run, Coq: c31Coq, Shrink: c31Shrink,
 	})
 	// long histories: the same observation compared through its digest
 	Register(Spec[c31In]{
 		ID: "C31", Suite: "streams", CoqImports: []string{"Check.C31"},
 		CoqType: "list Z", CoqRun: "Check.C31.run_digest",
-		Quick: 250, Thorough: 6000, Parallel: 16, Timeout: 120 * time.Second,
+		Quick: 120, Thorough: 6000, Parallel: 16, Timeout: 120 * time.Second,
 		Gen: c31GenCase(false), Run: c31RunDigest, Coq: c31Coq, Shrink: c31Shrink,
 	})
 }
